@@ -15,7 +15,9 @@ import (
 	"strings"
 	"testing"
 	"testing/synctest"
+	"time"
 
+	kb "github.com/libp2p/go-libp2p-kbucket"
 	"github.com/libp2p/go-libp2p-kbucket/peerdiversity"
 	"github.com/libp2p/go-libp2p/core/peer"
 	ma "github.com/multiformats/go-multiaddr"
@@ -189,7 +191,7 @@ func lkGen(r *vfRand, i int, honest bool) *lkCase {
 		}
 	}
 	c.strategy = r.Intn(4)
-	if !honest && r.Chance(25) {
+	if (!honest && r.Chance(25)) || (honest && r.Chance(8)) {
 		c.cancelAt = r.Intn(2 * n)
 	}
 	return c
@@ -245,6 +247,11 @@ type lkObs struct {
 	rtAfter                 []peer.ID
 	rtBefore                []peer.ID
 	self                    peer.ID
+	pubPeers                []peer.ID
+	pubErr                  bool
+	pubMoved                bool
+	pubMovedObservable      bool
+	hasPub                  bool
 }
 
 func lkStateCoq(s qpeerset.PeerState) string {
@@ -252,7 +259,7 @@ func lkStateCoq(s qpeerset.PeerState) string {
 }
 
 // lkRun drives the real lookup.  Must run inside a synctest bubble.
-func lkRun(t *testing.T, r *vfRand, c *lkCase) *lkObs {
+func lkRun(t *testing.T, r *vfRand, c *lkCase, public bool) *lkObs {
 	o := &lkObs{cancelFollowup: -1}
 	filter := func(_ interface{}, ai peer.AddrInfo) bool {
 		for _, a := range ai.Addrs {
@@ -342,8 +349,16 @@ func lkRun(t *testing.T, r *vfRand, c *lkCase) *lkObs {
 				o.panicked = fmt.Sprint(e)
 			}
 		}()
+		if public {
+			var ps []peer.ID
+			ps, err = d.GetClosestPeers(ctx, c.key)
+			res = &lookupWithFollowupResult{peers: ps}
+			return
+		}
 		res, err = d.runLookupWithFollowup(ctx, c.key, d.pmGetClosestPeers(c.key), stopFn)
 	}
+	time.Sleep(time.Minute) // virtual: the refresh stamp written by a completed lookup differs from the initial one
+	stampsBefore := d.routingTable.GetTrackedCplsForRefresh()
 
 	termSeen := false
 	seqAtTerm := -1
@@ -438,6 +453,17 @@ func lkRun(t *testing.T, r *vfRand, c *lkCase) *lkObs {
 	}
 	synctest.Wait()
 	o.rtAfter = d.routingTable.ListPeers()
+	stampsAfter := d.routingTable.GetTrackedCplsForRefresh()
+	if len(stampsAfter) != len(stampsBefore) {
+		o.pubMoved = true
+	}
+	for i := range stampsBefore {
+		if i < len(stampsAfter) && !stampsAfter[i].Equal(stampsBefore[i]) {
+			o.pubMoved = true
+		}
+	}
+	o.pubErr = err != nil
+	o.pubMovedObservable = kb.CommonPrefixLen(kb.ConvertKey(c.key), d.selfKey) < len(stampsBefore)
 	return o
 }
 
@@ -530,7 +556,7 @@ func lkCoq(c *lkCase, o *lkObs, selfID peer.ID) string {
 		}
 		uni = lkIDs(all)
 	}
-	fmt.Fprintf(&b, "   c_universe := %s;\n", uni)
+	fmt.Fprintf(&b, "   c_universe := %s; c_full := %s;\n", uni, vfBool(c.fullKnowledge))
 	st := make([]string, len(o.states))
 	for i, s := range o.states {
 		st[i] = lkStateCoq(s)
@@ -541,7 +567,15 @@ func lkCoq(c *lkCase, o *lkObs, selfID peer.ID) string {
 	}
 	fmt.Fprintf(&b, "   i_panic := %s; i_peers := %s; i_states := %s; i_closest := %s; i_completed := %s;\n",
 		vfBool(o.panicked != "" || o.deadlock), lkIDs(o.peers), vfList(st), lkIDs(o.closest), vfBool(o.completed))
-	fmt.Fprintf(&b, "   i_events := %s;\n   i_requests := %s |}", vfList(evs), lkIDs(o.requests))
+	pub := "None"
+	if o.hasPub {
+		mv := "None"
+		if o.pubMovedObservable {
+			mv = "Some " + vfBool(o.pubMoved)
+		}
+		pub = fmt.Sprintf("Some (%s, %s, %s)", lkIDs(o.pubPeers), vfBool(o.pubErr), mv)
+	}
+	fmt.Fprintf(&b, "   i_events := %s;\n   i_requests := %s;\n   i_pub := %s |}", vfList(evs), lkIDs(o.requests), pub)
 	return b.String()
 }
 
@@ -603,7 +637,7 @@ func lkSignature(c *lkCase, o *lkObs) string {
 	return fmt.Sprintf("%s|K%d a%d b%d|n%d", strings.Join(parts, ","), c.k, c.alpha, c.beta, len(c.peers)/8)
 }
 
-func lkRunAll(t *testing.T, runMod string, honestPct int) {
+func lkRunAll(t *testing.T, runMod string, honestPct int, withPublic bool) {
 	seed := vfSeed()
 	n := vfEnvInt("VERIF_N", 300)
 	only := vfOnly()
@@ -618,8 +652,16 @@ func lkRunAll(t *testing.T, runMod string, honestPct int) {
 		var o *lkObs
 		var self peer.ID
 		synctest.Test(t, func(t *testing.T) {
-			o = lkRun(t, r.Fork(), c)
+			x := r.Uint64()
+			o = lkRun(t, vfNewRand(x), c, false)
 			self = o.self
+			if c.honest && withPublic {
+				o2 := lkRun(t, vfNewRand(x), c, true)
+				o.hasPub, o.pubPeers, o.pubErr, o.pubMoved, o.pubMovedObservable = true, o2.peers, o2.pubErr, o2.pubMoved, o2.pubMovedObservable
+				if o2.panicked != "" || o2.deadlock {
+					o.panicked = "public GetClosestPeers: " + o2.panicked
+				}
+			}
 		})
 		idx := cs.Add(lkCoq(c, o, self), lkDesc(i, seed, c, o), lkSignature(c, o))
 		cs.Count(fmt.Sprintf("K:%d", c.k), 1)
@@ -646,4 +688,5 @@ func lkRunAll(t *testing.T, runMod string, honestPct int) {
 	}
 }
 
-func TestVerifC01(t *testing.T) { lkRunAll(t, "Run_C01", 20) }
+func TestVerifC01(t *testing.T) { lkRunAll(t, "Run_C01", 20, false) }
+func TestVerifC02(t *testing.T) { lkRunAll(t, "Run_C02", 75, true) }
